@@ -66,6 +66,10 @@ type SignalCase struct {
 	// runtime.Error (nil map write), 6 panics with an error value, 7 panic(nil),
 	// 8 panics with a runtime.Error (index out of range).
 	Outcomes []int `json:"outcomes"`
+	// SvcTypes (cycled per service): 0 *struct, 1 func adapter (an unhashable
+	// type), 2 struct value with a slice field (unhashable), 3 comparable
+	// struct value.
+	SvcTypes []int `json:"svc_types,omitempty"`
 	// CancelledParent: Handle is called with an already cancelled context.
 	CancelledParent bool  `json:"cancelled_parent,omitempty"`
 	Pre             []int `json:"pre"`  // non-shutdown signals before the shutdown signal
@@ -127,6 +131,25 @@ func (s *svc) Shutdown(ctx context.Context) error {
 	return nil
 }
 
+// funcSvc adapts a function to service.Interface (the usual Go adapter idiom).
+type funcSvc func(ctx context.Context) error
+
+func (f funcSvc) Start(context.Context) error        { return nil }
+func (f funcSvc) Shutdown(ctx context.Context) error { return f(ctx) }
+
+type sliceSvc struct {
+	impl *svc
+	pad  []int
+}
+
+func (s sliceSvc) Start(context.Context) error        { return nil }
+func (s sliceSvc) Shutdown(ctx context.Context) error { return s.impl.Shutdown(ctx) }
+
+type valueSvc struct{ impl *svc }
+
+func (s valueSvc) Start(context.Context) error        { return nil }
+func (s valueSvc) Shutdown(ctx context.Context) error { return s.impl.Shutdown(ctx) }
+
 // runBubble runs f inside a synctest bubble with a real-time watchdog: a
 // scenario that normally takes milliseconds and has not finished after 30 s
 // of real time is stuck on something that is not under the harness's control.
@@ -151,7 +174,25 @@ func runBubble[C any](kind string, c C, what string, f func()) {
 // Services with id >= 1000 are decoys that were never registered; the handler
 // must not call them.
 func register(h *service.SignalHandler, c SignalCase, mu *sync.Mutex, calls *[]int) {
-	mk := func(i int) service.Interface { return &svc{id: i, outcome: c.Outcomes[i], mu: mu, calls: calls} }
+	mk := func(i int) service.Interface {
+		p := &svc{id: i, outcome: c.Outcomes[i], mu: mu, calls: calls}
+		// The dynamic type of a registered service is the user's business:
+		// pointers, func adapters (not hashable), by-value structs with or
+		// without uncomparable fields.
+		st := 0
+		if len(c.SvcTypes) > 0 {
+			st = c.SvcTypes[i%len(c.SvcTypes)]
+		}
+		switch st {
+		case 1:
+			return funcSvc(p.Shutdown)
+		case 2:
+			return sliceSvc{impl: p, pad: []int{i}}
+		case 3:
+			return valueSvc{impl: p}
+		}
+		return p
+	}
 	decoy := func(i int) service.Interface { return &svc{id: 1000 + i, mu: mu, calls: calls} }
 	groups := c.Groups
 	if len(groups) == 0 {
@@ -324,6 +365,7 @@ var signalProp = vp.Register(vp.Prop[SignalCase]{
 			Groups:          rapid.SliceOfN(rapid.IntRange(1, 4), 0, 4).Draw(t, "groups"),
 			RegMode:         rapid.IntRange(0, 2).Draw(t, "regmode"),
 			Outcomes:        rapid.SliceOfN(rapid.SampledFrom([]int{0, 0, 0, 0, 1, 1, 2, 2, 3, 4, 5, 6, 7, 8}), 0, 6).Draw(t, "outcomes"),
+			SvcTypes:        rapid.SliceOfN(rapid.SampledFrom([]int{0, 0, 0, 1, 2, 3}), 0, 4).Draw(t, "svctypes"),
 			CancelledParent: rapid.IntRange(0, 5).Draw(t, "cancelled") == 0,
 			Pre:             rapid.SliceOfN(rapid.SampledFrom([]int{1, 10, 12, 13, 17, 28}), 0, 6).Draw(t, "pre"),
 			Shut:            rapid.SampledFrom([]int{2, 3, 15}).Draw(t, "shut"),
